@@ -19,10 +19,10 @@ type mcase struct {
 }
 
 type emitter struct {
-	strings, regexps, ints, lexes, types, parses []mcase
-	pfloats                            map[string]bool
-	letters                            map[rune]bool
-	failed                             bool // set by evaluate for the current input
+	strings, regexps, ints, lexes, types, parses, values, creates []mcase
+	pfloats                                                       map[string]bool
+	letters                                                       map[rune]bool
+	failed                                                        bool // set by evaluate for the current input
 }
 
 func newEmitter(cfg *lib.Config) *emitter {
@@ -212,6 +212,14 @@ func (e *emitter) flush(cfg *lib.Config, res *lib.Result) {
 		imports = []string{"Model.Base", "Model.QuoteLex", "Model.TokenParse", "Corr.CorrC05"}
 		write("parse", "list tok * option pval", "parser_tokens", "parse_mismatches pfloats cases", e.parses,
 			"Definition pfloats : list (str * str) := "+lib.GList(fs, "str * str")+".\n")
+	}
+	if len(e.values) > 0 || cfg.Replay == "" {
+		imports = []string{"Model.Base", "Model.QuoteLex", "Model.TokenParse", "Model.ValuePrint", "Corr.CorrC05"}
+		write("values", "list node * ref * option (list tok)", "value_print_graph", "value_mismatches cases", e.values, "")
+	}
+	if len(e.creates) > 0 || cfg.Replay == "" {
+		imports = []string{"Model.Base", "Model.Ty", "Model.QuoteLex", "Model.TypePrint", "Corr.CorrC05"}
+		write("create", "tname * list pv * option ty * list ty", "creator_arguments", "create_mismatches cases", e.creates, "")
 	}
 	flushTypes(e, cfg, res, budget)
 }
